@@ -271,11 +271,16 @@ func zzSoftmaxSetup[E float32 | float64](v *zzverif.T) (op string, shape []int, 
 	shape = v.CInts("shape")
 	rank := len(shape)
 	if v.Has("grid") && v.CBool("grid") {
-		// IEEE arithmetic on the grid {-200, 0, 200}: every exponential of a difference is exactly 0, 1 or +Inf,
+		// IEEE arithmetic on the grid {-200, 0, 200} (float64: {-1000, 0, 1000}): every exponential of a difference is
+		// exactly 0, 1 or +Inf,
 		// which puts rows far longer than the general IEEE proof within reach
 		xs = make([]E, zzverif.Prod(shape))
 		for i := range xs {
-			xs[i] = zzverif.Choose[E](v, "g"+string(rune('a'+i)), -200, 0, 200)
+			if _, wide := any(xs[i]).(float64); wide {
+				xs[i] = zzverif.Choose[E](v, "g"+string(rune('a'+i)), -1000, 0, 1000)
+			} else {
+				xs[i] = zzverif.Choose[E](v, "g"+string(rune('a'+i)), -200, 0, 200)
+			}
 		}
 	} else {
 		xs = zzverif.Syms[E](v, "x", zzverif.Prod(shape))
@@ -356,16 +361,16 @@ func c09SoftmaxIEEE[E float32 | float64](v *zzverif.T) {
 		y := at.(E)
 		if op == "Softmax" {
 			v.Assert("C09.softmax-finite-nonnegative", y == y && y >= 0 && y <= 1)
-			if v.Has("grid") && v.CBool("grid") && axis == len(shape)-1 {
-				// on the grid the exact answer is 1/(number of maxima of the row) at a maximum and 0 elsewhere
-				d := shape[axis]
-				row := f / d
-				m, cnt := xs[row*d], 0
+			if v.Has("grid") && v.CBool("grid") {
+				// on the grid the exact answer is 1/(number of maxima of the slice) at a maximum and 0 elsewhere
+				d, inner := shape[axis], zzverif.Prod(shape[axis+1:])
+				base := f/(d*inner)*(d*inner) + f%inner
+				m, cnt := xs[base], 0
 				for j := 1; j < d; j++ {
-					m = zzMaxOf(m, xs[row*d+j])
+					m = zzMaxOf(m, xs[base+j*inner])
 				}
 				for j := 0; j < d; j++ {
-					if xs[row*d+j] == m {
+					if xs[base+j*inner] == m {
 						cnt++
 					}
 				}
